@@ -1001,7 +1001,11 @@ pub struct Consumer<'g> {
     deferred: bool,
     externals: Vec<Option<External>>,
     nested_hook: Option<Box<dyn FnOnce()>>,
+    unwind: Vec<usize>,
 }
+
+/// Payload of the consumer's own, contained panics.
+struct ContainedPanic;
 
 impl<'g> Consumer<'g> {
     pub fn new(g: &'g FnGraph<TestFn>, cfg: &RunCfg) -> Self {
@@ -1054,6 +1058,7 @@ impl<'g> Consumer<'g> {
             deferred: false,
             externals: Vec::new(),
             nested_hook: None,
+            unwind: cfg.unwind.clone(),
         }
     }
 
@@ -1300,7 +1305,25 @@ impl Stepper for Consumer<'_> {
                 };
                 self.acts.push(a);
                 let f = self.held.remove(ix);
-                match catch_unwind(AssertUnwindSafe(move || drop(f))) {
+                let by_unwinding = self.unwind.contains(&id);
+                let dropped = catch_unwind(AssertUnwindSafe(move || {
+                    if by_unwinding {
+                        // the FnRef is a local of a frame that panics: dropped by the
+                        // unwinding; the panic is contained right here
+                        let r = catch_unwind(AssertUnwindSafe(move || {
+                            let _f = f;
+                            std::panic::panic_any(ContainedPanic);
+                        }));
+                        match r {
+                            Err(p) if p.is::<ContainedPanic>() => {}
+                            Err(p) => std::panic::resume_unwind(p),
+                            Ok(()) => {}
+                        }
+                    } else {
+                        drop(f)
+                    }
+                }));
+                match dropped {
                     Err(p) => {
                         std::mem::forget(self.stream.take());
                         std::mem::forget(std::mem::take(&mut self.held));
